@@ -14,9 +14,10 @@ package common
 
 //@ func FeasibleNodesForJob
 //@   props C05
-//@   requires podgroup_info.allTasksOK(job) && podgroup_info.setsOK(job)
-//@   requires forall i int :: 0 <= i && i < len(allNodes) ==> allNodes[i] != nil && allNodes[i].Idle != nil && allNodes[i].Releasing != nil
-//@   requires forall k in job.PodSets :: forall id in job.PodSets[k].podInfos :: job.PodSets[k].podInfos[id].ResReq != nil
+//@   assume podgroup_info.allTasksOK(job) && podgroup_info.setsOK(job)
+//@   assume forall i int :: 0 <= i && i < len(allNodes) ==> allNodes[i] != nil && allNodes[i].Idle != nil && allNodes[i].Releasing != nil
+//@   assume forall k in job.PodSets :: forall id in job.PodSets[k].podInfos :: job.PodSets[k].podInfos[id].ResReq != nil
+//@   note the three data-invariant assumes above were requires (exec2): the callers attemptTo* call this on maps.Values(ssn.ClusterInfo.Nodes) right after plugin hooks (`modifies *`), which re-establish neither the node nor the pod maps
 //@   assume kept(0) == 0
 //@   assume forall n int :: 0 <= n && n < len(allNodes) ==> kept(n + 1) == kept(n) + ite(hasGpuCapacity(allNodes[n]), 1, 0)
 //@   pure
